@@ -1501,6 +1501,11 @@ class SetItems(StackSliceOpcode):
 
     def run(self, interpreter: Interpreter, stack_slice: List[ast.expr]):
         pydict = interpreter.stack.pop()
+        if not stack_slice:
+            # no items: the pickle VM does not touch the target at all, whatever it is, so do
+            # not emit an `.update({})` call on it
+            interpreter.stack.append(pydict)
+            return
         update_dict_keys = []
         update_dict_values = []
         for key, value in zip(stack_slice[::2], stack_slice[1::2]):
